@@ -736,6 +736,72 @@ theorem tokenizer_escapes {V : Type} (code : Code) (P : Prims V) (o : Obj V) (e 
   subst hev
   simp only [ht, wrapFeed, h1, Bool.false_eq_true, if_false, h2]
 
+/-- **`Covers` is necessary, not only sufficient** (main conjuncts). Tokenizer: for ANY clauses, a class that neither
+    `feed`'s clause nor the constructor's accepts, raised by `goahead` on a behaviour that is otherwise silent (and within
+    every list of recorded kinds, `silent_within`), leaves the constructor as itself. -/
+theorem covers_necessary_tokenizer (code : Code) (c : Err) (h : okAtFeed code c = false) :
+    (constructE code { Prims.silent with tokFeed := fun _ => ([], some c) } Frame.unit (fun _ => ()) (.str [60])).2
+      = .error c := by
+  unfold okAtFeed okAtCtor at h
+  simp only [Bool.or_eq_false_iff] at h
+  obtain ⟨h1, h2, h3⟩ := h
+  simp [constructE, construct, heuristicsE, heuristics, heuristicsOld, heuristicsGuard, Markup.units, prepareMarkupE,
+    retry, attempt, machineE, Frame.unit, assignAll, soupFeedE, builderFeedE, runPhase, handleEventsE, wrapFeed,
+    Prims.silent, Prims.quiet, h1, h2]
+
+/-- `str(bytes, codec, errors)`: what `_convert_from`'s clause does not absorb leaves through the generator -/
+theorem covers_necessary_decode (code : Code) (c : Err) (h : catches code.convertFrom c = false) :
+    (constructE code { Prims.silent with decode := fun _ _ => .error c } Frame.unit (fun _ => ()) (.bytes [60])).2
+      = .error (pep479 c) := by
+  simp [constructE, construct, heuristicsE, heuristics, heuristicsOld, heuristicsGuard, Markup.units, prepareMarkupE,
+    dammitE, pass1E, convertFromE, findCodecE, findCodecGo, tryLookup,
+    Prims.silent, Prims.quiet, h]
+
+/-- `codecs.lookup`: what `_codec`'s clause does not absorb leaves `find_codec`, `_convert_from` (called outside its
+    `try`), UnicodeDammit and the generator -/
+theorem covers_necessary_lookup (code : Code) (c : Err) (h : catches code.codecLookup c = false) :
+    (constructE code { Prims.silent with lookup := fun _ => .error c } Frame.unit (fun _ => ()) (.bytes [60])).2
+      = .error (pep479 c) := by
+  simp [constructE, construct, heuristicsE, heuristics, heuristicsOld, heuristicsGuard, Markup.units, prepareMarkupE,
+    dammitE, pass1E, convertFromE, findCodecE, findCodecGo, tryLookup,
+    Prims.silent, Prims.quiet, h]
+
+/-- anything raised inside the candidate generator leaves the constructor (after PEP 479, applied once) -/
+theorem covers_necessary_generator (code : Code) (c : Err) :
+    (constructE code { Prims.silent with cands := [.error c] } Frame.unit (fun _ => ()) (.bytes [60])).2
+      = .error (pep479 c) := by
+  simp [constructE, construct, heuristicsE, heuristics, heuristicsOld, heuristicsGuard, Markup.units, prepareMarkupE,
+    dammitE, pass1E, pep479_idem]
+
+/-- with `close()` outside `feed`'s `try`, a class of the second tokenizer phase that the constructor's clause does not
+    accept leaves -/
+theorem covers_necessary_close (code : Code) (c : Err) (hg : code.closeGuarded = false) (h : okAtCtor code c = false) :
+    (constructE code { Prims.silent with tokClose := fun _ => ([], some c) } Frame.unit (fun _ => ()) (.str [60])).2
+      = .error c := by
+  unfold okAtCtor at h
+  simp only [Bool.or_eq_false_iff] at h
+  obtain ⟨h2, h3⟩ := h
+  simp [constructE, construct, heuristicsE, heuristics, heuristicsOld, heuristicsGuard, Markup.units, prepareMarkupE,
+    retry, attempt, machineE, Frame.unit, assignAll, soupFeedE, builderFeedE, runPhase, handleEventsE, wrapFeed,
+    Prims.silent, Prims.quiet, hg, h2]
+
+/-- `int()`: what neither `handle_charref`'s clause nor `feed`'s nor the constructor's accepts leaves -/
+theorem covers_necessary_int (code : Code) (c : Err) (hi : catches code.charrefInt c = false)
+    (h : okAtFeed code c = false) :
+    (constructE code { Prims.silent with tokFeed := fun _ => ([.charref [49]], none), intDec := fun _ => .error c }
+      Frame.unit (fun _ => ()) (.str [60])).2 = .error c := by
+  unfold okAtFeed okAtCtor at h
+  simp only [Bool.or_eq_false_iff] at h
+  obtain ⟨h1, h2, h3⟩ := h
+  simp [constructE, construct, heuristicsE, heuristics, heuristicsOld, heuristicsGuard, Markup.units, prepareMarkupE,
+    retry, attempt, machineE, Frame.unit, assignAll, soupFeedE, builderFeedE, runPhase, handleEventsE, wrapFeed,
+    handleCharrefE, charrefNumberE, absorb,
+    Prims.silent, Prims.quiet, hi, h1, h2]
+
+example : okAtFeed Code.live .typeError = false := by decide
+example : okAtFeed Code.v4130 .valueError = false := by decide
+example : catches Code.live.convertFrom .keyboardInterrupt = false := by decide
+
 /-- with `close()` outside the `try` (seeded change C06-r2m1) an `AssertionError` of the second phase escapes -/
 theorem close_must_be_guarded :
     predict { Code.live with closeGuarded := false } .tokClose .assertionError = .escapes .assertionError := by decide
